@@ -503,6 +503,90 @@ pub fn check_glue(case: &Vec<Vec<u8>>, obs: &mut Obs) -> CheckResult {
     Ok(())
 }
 
+/// The frame the sender really builds for a keepalive comes from a connection (`SrtlaConnection::keepalive_packet`),
+/// not from the bare builder: it must decode back to the time and the link state it was built from, whatever came
+/// before (earlier keepalives with or without an echo, traffic, NAKs).
+#[derive(Debug, Clone, Hash, Serialize, Deserialize)]
+pub enum KaStep {
+    Keepalive(u16),
+    Echo(u16),
+    Traffic(u8),
+    Nak(u8),
+    Queue(u8),
+}
+
+pub fn check_conn_keepalives(steps: &Vec<KaStep>, obs: &mut Obs) -> CheckResult {
+    use crate::engine::core::{T0, apply_keepalive_echo, apply_reg3, new_link};
+    let mut now = T0;
+    let mut c = new_link(0, now);
+    apply_reg3(&mut c, now);
+    let mut seq = 1i32;
+    let mut last_sent: Option<u64> = None;
+    let mut frames = 0;
+    for (i, st) in steps.iter().enumerate() {
+        match st {
+            KaStep::Keepalive(dt) => {
+                now += *dt as u64;
+                let (w, f, nk, bps) = (c.window, c.in_flight_packets, c.total_nak_count(), c.bitrate.current_bitrate_bps);
+                let frame = c.keepalive_packet(now);
+                vensure!(frame.len() == 38, "built-keepalive", "step {i}: keepalive_packet built {} bytes", frame.len());
+                vensure!(rc::keepalive_ts(&frame) == Some(now), "built-keepalive", "step {i}: keepalive built at {} carries timestamp {:?} (previous keepalive at {:?})", now - T0, rc::keepalive_ts(&frame).map(|t| t as i64 - T0 as i64), last_sent.map(|t| t - T0));
+                vensure!(sp::extract_keepalive_timestamp(&frame) == Some(now), "built-keepalive", "step {i}: own decoder reads another timestamp");
+                let info = rc::keepalive_info(&frame);
+                vensure!(info.is_some(), "built-keepalive", "step {i}: frame lacks the extended magic / version");
+                let info = info.unwrap();
+                vensure!(info.window == w && info.in_flight == f && info.nak_count == nk as u32 && info.rate == (bps / 8.0) as u32, "built-keepalive", "step {i}: telemetry (window {}, in-flight {}, naks {}, rate {}) != link state (window {w}, in-flight {f}, naks {nk}, rate {})", info.window, info.in_flight, info.nak_count, info.rate, (bps / 8.0) as u32);
+                if last_sent.is_some() {
+                    obs.nontrivial = true;
+                }
+                last_sent = Some(now);
+                frames += 1;
+            }
+            KaStep::Echo(dt) => {
+                now += *dt as u64;
+                if let Some(t) = last_sent {
+                    let _ = apply_keepalive_echo(&mut c, t, now);
+                }
+            }
+            KaStep::Traffic(k) => {
+                for _ in 0..*k {
+                    c.register_packet(seq, now);
+                    seq += 1;
+                }
+                c.bitrate.current_bitrate_bps = (*k as f64) * 1316.0 * 8.0;
+            }
+            KaStep::Nak(k) => {
+                for _ in 0..*k {
+                    c.register_packet(seq, now);
+                    c.handle_nak(seq, now);
+                    seq += 1;
+                }
+            }
+            KaStep::Queue(k) => {
+                for _ in 0..(*k).min(20) {
+                    let mut p = [0u8; 32];
+                    p[0..4].copy_from_slice(&(seq as u32).to_be_bytes());
+                    c.queue_data_packet(&p, Some(seq as u32), now);
+                    seq += 1;
+                }
+            }
+        }
+    }
+    let _ = frames;
+    Ok(())
+}
+
+fn ka_strategy() -> impl Strategy<Value = Vec<KaStep>> {
+    let st = prop_oneof![
+        5 => prop_oneof![Just(1000u16), Just(999), Just(1001), 1u16..4000].prop_map(KaStep::Keepalive),
+        2 => prop_oneof![Just(0u16), Just(40), 1u16..1500].prop_map(KaStep::Echo),
+        1 => (1u8..60).prop_map(KaStep::Traffic),
+        1 => (1u8..6).prop_map(KaStep::Nak),
+        1 => (1u8..20).prop_map(KaStep::Queue),
+    ];
+    vec(st, 2..30)
+}
+
 fn glue_strategy() -> impl Strategy<Value = Vec<Vec<u8>>> {
     let d = prop_oneof![
         3 => vec(any::<u8>(), 1..4),
@@ -534,7 +618,8 @@ pub fn run(ctx: &Ctx) -> &'static str {
             || ctx.replay_case::<TypedCase, _>("types-x-guards", &file, &body, |c, o| check_bytes(&typed_bytes(c), o))
             || ctx.replay_case::<Built, _>("builders", &file, &body, check_built)
             || ctx.replay_case::<RegFrame, _>("registration-frames", &file, &body, check_reg_frame)
-            || ctx.replay_case::<Vec<Vec<u8>>, _>("glue-decode", &file, &body, check_glue);
+            || ctx.replay_case::<Vec<Vec<u8>>, _>("glue-decode", &file, &body, check_glue)
+            || ctx.replay_case::<Vec<KaStep>, _>("built-keepalives", &file, &body, check_conn_keepalives);
         if !done {
             eprintln!("replay {}: unknown part", file.display());
         }
@@ -608,6 +693,13 @@ pub fn run(ctx: &Ctx) -> &'static str {
         ctx.tier.pick(4_000, 60_000),
         glue_strategy,
         |_| check_glue,
+    );
+    ctx.explore(
+        "built-keepalives",
+        "sequences of keepalives built by a real connection (SrtlaConnection::keepalive_packet) 1..4000 ms apart, with and without an echo in between, traffic, NAKs and queued packets: every frame is 38 bytes and decodes (reference decoder and own decoder) to the time it was built at and the link's window / in-flight / NAK count / rate; non-trivial = at least two keepalives",
+        ctx.tier.pick(20_000, 300_000),
+        ka_strategy,
+        |_| check_conn_keepalives,
     );
     if ctx.tier == crate::rt::Tier::Thorough {
         crate::fuzzrun::campaign(ctx, "c15_codec", 300);
